@@ -3,7 +3,9 @@
 One case = one grid object of one family (dimension 1-3, domain [a,b]) that is moved over 1-3 areas
 (sub-box from dyadic bisections + anisotropic level vector) with ``setCurrentArea`` exactly like the extend-split
 strategy does, and is asked for its points, weights, announced point numbers and for ``integrate`` of a vector valued
-test function (polynomials + nodal unit functions).  Everything is compared with closed forms.
+test function (polynomials + nodal unit functions).  Everything is compared with closed forms.  The object is also
+re-used the way the library re-uses it: rejected requests in between, boundary flags changed with ``set_boundaries``
+between two requests for the same area, repeated requests - always compared with a newly constructed object.
 """
 import itertools
 import math
@@ -36,7 +38,20 @@ RULE = ("case = family x boundary flag x d in 1..3 x domain [a,b] (ends from sma
         "long; through setCurrentArea or integrate) on the same object before one of the valid areas; the exception is "
         "caught and every following valid area must pass all clauses and give bit-identical announced numbers, points "
         "and weights as a fresh object that only got the valid requests (signature suffix /after-a-rejected-request "
-        "for whatever fails only on the object with the rejected request). Distinct = distinct case dict.")
+        "for whatever fails only on the object with the rejected request). Re-used object ('flagprog', every second "
+        "trap_boundary case incl. all that construct TrapezoidalGrid(boundary=True) there, 1/5 of hier, 1/6 of nodal): "
+        "after a visited area 1-2 entries, each = a public state change followed by a request for the SAME area and "
+        "level vector on the same object: set_boundaries(all flags inverted / all on (the library's own save, switch "
+        "on, set area, restore sequence) / all off / independent flags per dimension; list or NumPy bool array) for "
+        "Trapezoidal (trap_boundary) and B-spline without modified basis (hier), for every family the "
+        "set_boundaries(get_boundaries()) round trip, set_boundaries([True]*d) on a boundary=True grid and the plain "
+        "repeated request; in a third another area is requested in between; in half the flags are restored with the "
+        "array get_boundaries() returned and the area is requested a third time; later areas are visited under the "
+        "flags then in force. Every such request gets all clauses for the flags in force (count, inside, nothing on a "
+        "switched-off global face, weight sum, exactness, composite trapezoidal model, boundary-on twin minus the "
+        "global-boundary points; at most 48/24 test functions) and must give bit-identical announced numbers, points "
+        "and weights as a new object constructed with those flags that gets this one request (signature "
+        ".../reused-object). Distinct = distinct case dict.")
 ASSUMPTIONS = [
     "boundary=False is exercised for TrapezoidalGrid and BSplineGrid only; Simpson/Clenshaw-Curtis/Leja/Lagrange "
     "with boundary=False have no caller, test or tutorial in the repository and are excluded (DESIGN section 3.1)",
@@ -68,6 +83,18 @@ ASSUMPTIONS = [
     "family/flag combinations x setCurrentArea/integrate); inputs the library silently accepts (start>=end, box outside "
     "the domain, start=None; float / negative Python int levels for Gauss-Legendre) are not used; nothing is asserted "
     "about the exception type, only about the object afterwards",
+    "flags are changed only through Grid.set_boundaries (the public setter GridOperation.Integration itself uses: "
+    "save get_boundaries(), set_boundaries([True]*dim), setCurrentArea, set_boundaries(saved)) and only between two "
+    "requests; really different flags only for the families for which boundary=False is in the accepted domain "
+    "(Trapezoidal, B-spline) and not for modified_basis=True grids (the constructors refuse boundary=True with "
+    "modified_basis, so no object 'constructed with the corresponding flags' exists); the other families only get "
+    "calls that leave the flags as they are",
+    "the object 'constructed with the corresponding flags' is the family's constructor with boundary=<flag> when all "
+    "dimensions agree, MixedGrid over new TrapezoidalGrid1D(boundary=flag_k) for per-dimension trapezoidal flags, "
+    "and constructor + set_boundaries before the first request for per-dimension B-spline flags; Grid.boundary (the "
+    "attribute of the tensor grid, only read by point_not_zero) is not part of the statement and not compared",
+    "really switched trapezoidal flags live in sub-check trap_boundary only, so that the level-0 mid point deviation "
+    "F-C08-a keeps its one cause-based signature",
     "every tolerance of the harness is relative (to the box volume, to |start|+|end| of the dimension); 'on the global "
     "boundary' is known exactly from the bisection path, never from a comparison of floats",
 ]
@@ -647,6 +674,9 @@ def run_sequence(case, sub, grid_factory, invalid, reference=None):
     grid = grid_factory(case)
     limits = dict(max_functions=120 if fam in HIER else 400,
                   max_unit_points=64 if fam in HIER else 300)
+    # requests of the flag program (the same area again, the area in between): fewer test functions per request; the
+    # comparison with a fresh object is bit-wise on all points and weights anyway
+    limits_again = dict(max_functions=24 if fam in HIER else 48, max_unit_points=16 if fam in HIER else 48)
     info = {}
     nt = False
     observations = []
@@ -655,7 +685,7 @@ def run_sequence(case, sub, grid_factory, invalid, reference=None):
     cur = [bool(case["boundary"])] * d            # the harness's model of the flags in force
     history = []                                  # what was done to the object (for the messages)
 
-    def visit(area, tag, flags):
+    def visit(area, tag, flags, limits=limits):
         """one request for an area on the shared object with all clauses; returns the observation"""
         rejected = state["rejected"]
         nviol = len(out.violations)
@@ -797,14 +827,14 @@ def run_sequence(case, sub, grid_factory, invalid, reference=None):
                         out.cls("...and-no-other-area-in-between")
             if e.get("between") is not None:
                 out.cls("reused-object:other-area-requested-in-between")
-                visit(Area(case, e["between"]), tag + " [other area under flags %s]" % new, cur)
-            visit(area, tag + " [same area and level vector again, flags %s -> %s]" % (old, new), cur)
+                visit(Area(case, e["between"]), tag + " [other area under flags %s]" % new, cur, limits_again)
+            visit(area, tag + " [same area and level vector again, flags %s -> %s]" % (old, new), cur, limits_again)
             if e.get("restore"):
                 out.cls("reused-object:flags-restored-and-same-area-requested-a-third-time")
                 if kind != "repeat":
                     set_flags(saved, "array")
                 cur = old
-                visit(area, tag + " [same area and level vector, flags restored to %s]" % old, cur)
+                visit(area, tag + " [same area and level vector, flags restored to %s]" % old, cur, limits_again)
         # classes / non-triviality
         where = "whole-domain" if not area.proper else ("touching-boundary" if area.touches else "interior")
         out.cls(where)
@@ -1012,16 +1042,18 @@ def case_strategy(families, tier, boundary_choices, point_cap, switchable=(), pr
 
 
 def nodal_strategy(tier):
-    return case_strategy(list(NODAL), tier, {"trapezoidal": [True, True, "modified"]}, 2500 if tier == "quick" else 3000)
+    return case_strategy(list(NODAL), tier, {"trapezoidal": [True, True, "modified"]}, 2500 if tier == "quick" else 3000,
+                         prog_odds=(False, False, False, False, False, True))
 
 
 def hier_strategy(tier):
     return case_strategy(["lagrange", "bspline", "bspline"], tier, {"bspline": [True, True, False, "modified"]},
-                         700 if tier == "quick" else 1500, switchable=("bspline",))
+                         700 if tier == "quick" else 1500, switchable=("bspline",),
+                         prog_odds=(False, False, False, False, True))
 
 
 def trap_boundary_strategy(tier):
-    return case_strategy(["trapezoidal"], tier, {"trapezoidal": [False, False, False, "modified", True]},
+    return case_strategy(["trapezoidal"], tier, {"trapezoidal": [False, False, False, "modified", "modified", True]},
                          2500 if tier == "quick" else 5000, switchable=("trapezoidal",), prog_odds=(False, True),
                          force_prog_for_boundary_on=True)
 
@@ -1226,7 +1258,7 @@ def selftest():
 SUBS = [
     Sub("nodal", nodal_strategy, run_nodal, dict(quick=3600, thorough=20000),
         budget_s=dict(quick=24, thorough=240), fixed_cases=nodal_fixed),
-    Sub("hier", hier_strategy, run_hier, dict(quick=2000, thorough=20000),
+    Sub("hier", hier_strategy, run_hier, dict(quick=1800, thorough=20000),
         budget_s=dict(quick=24, thorough=240), fixed_cases=hier_fixed),
     Sub("trap_boundary", trap_boundary_strategy, run_trap_boundary, dict(quick=2400, thorough=24000),
         budget_s=dict(quick=12, thorough=120), fixed_cases=trap_fixed),
